@@ -1,6 +1,8 @@
 """C03 — forest productivity detection equals the least fixed point, in any insert order."""
 import itertools
 
+from harness.props import c03_rdb as RDB
+
 ID = "C03"
 TITLE = "forest table method = least fixed point, order independent, monotone"
 COQ_PROPS = "Props/C03.v"
@@ -30,7 +32,21 @@ RULE = (
     "extended history as failing input (none found: loud line in the evidence, no violation); each multiset is "
     "replayed in ONE second random order and the FINAL function dicts are compared (sampled order independence); "
     "consecutive prefixes of the generated order are checked for monotonicity. "
-    "Non-trivial: some class ends with a finite non-zero value AND some class pumps; distinct = distinct op list."
+    "Non-trivial: some class ends with a finite non-zero value AND some class pumps; distinct = distinct op list. "
+    "SECOND FAMILY (15% of the cases, harness/props/c03_rdb.py): a REAL RuleDBForest(reverse=True/False) linked to a real "
+    "CombinatorialSpecificationSearcher over a table universe of the C04 generator (2-10 integer classes; real Rule / "
+    "VerificationRule / EmptyStrategy rule objects, so forest_key(), to_reverse_rule(i).forest_key() and the emptiness "
+    "cache are the library's), driven in three modes: ruledb.add(start, ends, rule) called directly with 3-30 rules of the "
+    "table in a generated order (and once more in a second order: same verified classes at the end); the same rules through "
+    "searcher.add_rule; a real level-by-level search. Every key the database hands to table_method.add_rule_key becomes an "
+    "AddKey operation; after EVERY return of add() ruledb.is_verified(label) is asked for every label of the class database "
+    "and one unused label, and ruledb.has_specification() once: compared with the extracted model run_c03 on exactly these "
+    "operations (= pumping_answer of the model state after the keys handed over so far) and judged by the Kleene iteration; "
+    "the oracle also recomputes from the TABLE and the emptiness cache at the time of the call which keys each add() must "
+    "hand over (forward key with bucket NORMAL/EQUIV/VERIFICATION, reverse keys with bucket REVERSE/EQUIV when reverse=True "
+    "and the rule is reversible, one VERIFICATION key per empty child of a possibly_empty rule not served before, added through "
+    "searcher.add_rule) - a dropped, doubled or altered key is a violation. Non-trivial there: >= 6 operations, some "
+    "class verified and some not."
 )
 TRUSTED = [
     "modelled, not verified: rule_db/forest.py Function + DefaultList + TableMethod — hand-written Gallina model "
@@ -41,6 +57,10 @@ TRUSTED = [
     "a failure of the genuine part of the invariant on the real object triggers a search for a failing continuation). "
     "Not transcribed: a DefaultList grows by trailing empty entries when merely read (stripped on both sides); "
     "ForestRuleKey.bucket (plays no role in TableMethod); len(shifts) != len(children)",
+    "RuleDBForest.add / _add_empty_rule / is_verified / has_specification have NO Gallina model in this property (C04 and "
+    "C11 model add as EvKey events of the searcher model): here they are run for real and their effect - the list of keys "
+    "that reaches the table method, the answers after every add() - is compared with the extracted table-method model on "
+    "that key list and with an oracle that recomputes the keys from the strategy table (harness/props/c03_rdb.py)",
     "Forest/Model.v (layer A) is no longer trusted for the theorems about the incremental algorithm: it is proved to "
     "be one schedule of layer S (C03_A_is_S), like layer B (C03_B_refines_S)",
 ]
@@ -53,6 +73,12 @@ ASSUMPTIONS = [
     "C03_harness_never_out_of_fuel, C03_B_harness_never_out_of_fuel)",
     "labels are non-negative integers (ClassDB labels); children and shifts tuples have equal length (a kids list "
     "cannot express unequal lengths; Rule.forest_key passes strategy.shifts() unvalidated — checked by no property)",
+    "RuleDBForest cases: 'the rules inserted' are turned into keys by the library's own rule.forest_key / to_reverse_rule / "
+    "classdb.is_empty; the oracle's expectation is computed from the table universe (children, shifts, reversible flag, "
+    "emptiness cache snapshot at the call) - it presupposes table strategies (pure functions of the class). That "
+    "is_verified(l) after add() equals pumping_answer (run_total pick0 (keys handed over)) l is CHECKED per case with the "
+    "extracted model (C03_total_sound_complete then gives: = pumps in the least fixed point of those keys); it is not a "
+    "Coq theorem about a model of RuleDBForest (no ops_of_events bridge to the searcher model of C04/C17 yet)",
     "set.pop() and the iteration order of the held set are universally quantified in the theorems (pick, ord with "
     "perm_ok); the extracted models resolve them by position, the real run by Python's set order — the observables "
     "provably do not depend on it, the stale internals may (reported separately)",
@@ -77,10 +103,17 @@ def _gen_translated(rng):
     return {"gen": [2, cnt, rng.randint(1, 5)]}
 
 
+RDB_SHARE = 0.15
+
+
 def gen(rng, tier):
     while True:
         if rng.random() < 0.04:
             yield _gen_translated(rng)
+            continue
+        if rng.random() < RDB_SHARE:
+            # second case family: a REAL RuleDBForest driven through add() (harness/props/c03_rdb.py)
+            yield RDB.gen_case(rng)
             continue
         style = rng.choice(["random", "random", "cycle", "chain", "lateshift", "dense", "tiny"])
         nlab = rng.randint(1, 12)
@@ -136,6 +169,8 @@ def _sxopt(v):
 
 
 def encode(case):
+    if "rdb" in case:
+        raise ValueError("RuleDBForest cases are encoded from the real run (encode_with)")
     if "gen" in case:
         g = case["gen"]
         if g[0] == 0:
@@ -149,6 +184,8 @@ def encode(case):
 def encode_with(case, res):
     """history cases: the ops AND one snapshot of the real object's internals per op (compared by the
     extracted layer-B model with its own internals; informational verdicts, see canon_model)"""
+    if "rdb" in case:
+        return RDB.encode_with(case, res)
     if "gen" in case:
         return encode(case)
     return [-8, case["ops"], res.get("ints") or []]
@@ -477,6 +514,8 @@ def _find_continuation(ops, at, seed, tries):
 
 
 def impl(case):
+    if "rdb" in case:
+        return RDB.impl(case)
     if "gen" in case:
         return {"out": _impl_translated(case["gen"]), "snaps": [], "final_perm": {}}
     ints, inv = [], []
@@ -528,6 +567,8 @@ def naive_lfp(keys):
 
 
 def oracle(case, res):
+    if "rdb" in case:
+        return RDB.oracle(case, res)
     if "exception" in res:
         return "implementation raised " + res["exception"]
     if "gen" in case:
@@ -563,6 +604,8 @@ def oracle(case, res):
 
 
 def nontrivial(case, res):
+    if "rdb" in case:
+        return RDB.nontrivial(case, res)
     if not res.get("snaps"):
         return False
     last = res["snaps"][-1]
@@ -570,10 +613,14 @@ def nontrivial(case, res):
 
 
 def key(case):
+    if "rdb" in case:
+        return RDB.key(case)
     return str(case.get("gen", case.get("ops")))
 
 
 def classify(case, res):
+    if "rdb" in case:
+        return RDB.classify(case, res)
     # (runs in the main process) informational tally: the layer-B invariant on the REAL object
     INT_STATS["real_invariant_ops"] += res.get("inv_ops", 0)
     if res.get("inv_bad"):
@@ -611,6 +658,9 @@ def classify(case, res):
 
 
 def shrink(case):
+    if "rdb" in case:
+        yield from RDB.shrink(case)
+        return
     if "gen" in case:
         return
     # a case that fails ONLY through the invariant + continuation search: first replace it by the extended
@@ -675,8 +725,15 @@ LEVEL_NOTE = (
     "the +1/-1 updates in forest.py breaks no proof obligation, it shows up as a correspondence mismatch (observables) and in "
     "the internals tally. Termination of the real _process_queue follows only through the correspondence (a looping change is "
     "seen as a NonTermination guard / timeout, never as agreement). Order independence of the REAL code is sampled (one extra "
-    "permutation per case, final dict); RuleDBForest.is_verified / has_specification are not driven by this check (bare "
-    "TableMethod, bucket NORMAL). Trusted: Coq kernel, extraction, OCaml driver, harness."
+    "permutation per case, final dict). The history cases drive a bare TableMethod with bucket NORMAL; the observation points "
+    "RuleDBForest.is_verified / has_specification are driven by the second case family (15% of the cases): a real RuleDBForest "
+    "linked to a real searcher, add() called directly in a generated order / through searcher.add_rule / by a real search, "
+    "all four buckets, reverse keys, empty-class keys; after every add() is_verified of every label and has_specification are "
+    "compared with the extracted model run on the keys the database handed to its table method (so C03_total_sound_complete "
+    "speaks about the answer: it is pumping_answer (run_total ...) of exactly those keys) and with the Kleene iteration, and the "
+    "keys handed over are compared with the keys the rule must produce according to the table (correspondence + oracle, no "
+    "theorem about add() itself; counts in the evidence under 'real RuleDBForest'). Trusted: Coq kernel, extraction, OCaml "
+    "driver, harness."
 )
 
 
@@ -738,6 +795,7 @@ def extra_checks(ctx):
                   % (st["genuine_unwitnessed"], st["genuine_unwitnessed_examples"]))[:700] + detail
     info = [("layer-B internals vs real TableMethod (genuine invariant failures are searched for a failing input; "
              "the rest informational)", True, detail)]
+    info.extend(RDB.coverage_check(len(ctx.cases) >= 5000))
     return info + [gen_selftest.rejects(_BAD_SNIPPETS)] + gen_selftest.checks(GEN_TARGETS, ctx.seed, ID)
 
 
